@@ -11,6 +11,7 @@ import SuccinctlyVerif.Proof.Utf8LineCol
 import SuccinctlyVerif.Proof.Utf8RoundTrip
 import SuccinctlyVerif.Proof.Utf8SpecLink
 import SuccinctlyVerif.Proof.Utf8Codec
+import SuccinctlyVerif.Generated.C13
 namespace SV.Props.C13
 open SV SV.Utf8
 
@@ -242,5 +243,27 @@ theorem spec_encode_decode (bs : List Byte) (n k : Nat) (h : decodeFirst bs = so
     cases hsc : isScalar cp.toNat with
     | true => rfl
     | false => rw [(encode_none_iff_not_scalar cp).2 hsc] at he; cases he
+
+/-- The `err` lane DAG of `check_block`, regenerated from `src/text/utf8/simd_x86.rs` on this run
+(Generated/C13.lean: chunk lane + the three shifted inputs), computes for every 4-tuple of bytes the
+lane value of the hand-written `checkBlockLane` that `avx2_accept_iff` is about; and the three shifted
+inputs are still defined in the source as `alignr(chunk, shifted, 15/14/13)` over
+`permute2x128(prev_input, chunk, 0x21)`, i.e. "the byte 1/2/3 positions back" (cross-lane, modelled by
+hand in `avx2Go`, not translated). -/
+theorem lanes_generated_eq :
+    (∀ c p1 p2 p3 : Byte, Gen.check_block_err_lane c p1 p2 p3 = checkBlockLane c p1 p2 p3) ∧
+    Gen.check_block_input_prev1_src = ["_mm256_alignr_epi8 ( chunk , shifted , 15 )"] ∧
+    Gen.check_block_input_prev2_src = ["_mm256_alignr_epi8 ( chunk , shifted , 14 )"] ∧
+    Gen.check_block_input_prev3_src = ["_mm256_alignr_epi8 ( chunk , shifted , 13 )"] := by
+  refine ⟨?_, by decide, by decide, by decide⟩
+  have hmax : ∀ a b : Byte, SV.Lane.maxu a b = maxu a b := by
+    intro a b; unfold SV.Lane.maxu maxu
+    split <;> split <;> first | rfl | bv_omega
+  intro c p1 p2 p3
+  simp only [Gen.check_block_err_lane, checkBlockLane, uge, ult, hmax]
+  rfl
+
+example : Gen.check_block_err_lane 0x80#8 0x41#8 0x41#8 0x41#8 ≠ 0#8 ∧
+    Gen.check_block_err_lane 0x80#8 0xC3#8 0x41#8 0x41#8 = 0#8 := by decide
 
 end SV.Props.C13
